@@ -140,6 +140,9 @@ class TapeWriter:
         """concrete inputs tried natively when an obligation of the cell stays undecided (bounded stand-in)"""
         lens = [0, 1, 2, 254, 255, 256, 509, 510, 511, 765, 1000]
         fn = cell["fn"]
+        if fn == "add_files":
+            yield {"data0": [1, 2, 3], "data1": [4] * 300, "data2": [], "B0": []}
+            return
         for L in lens:
             data = [(7 * i + 3) % 256 for i in range(L)]
             if fn == "append_data_blocks":
@@ -329,7 +332,7 @@ class TapeWriter:
             before = list(data)
             F.method(cas, "add_file", f)
             self._native_files_check(env, F.get(cas, "buffer"), B0, [(name, ftype, dtype, load, exe, data)], KEY + "add_file::post:tape-file")
-            env.ensure(KEY + "add_file::post:frame:file-data-unchanged", list(F.get(f, "data")) == before, ("C16", "C09"),
+            env.ensure(KEY + "add_file::post:frame:file-data-unchanged", list(F.get(f, "data")) == before, ("C16", "C09", "C14"),
                        lambda: "add_file:file-data-modified:%d->%d" % (len(before), len(list(F.get(f, "data")))))
             return
         gap, leader = self._measure(env, F)
@@ -342,7 +345,7 @@ class TapeWriter:
                    mk(buf.seq == z3.Concat(B0, self._want_file(name, ftype, dtype, load, exe, data, gap, leader))), ("C14",))
         # the CoCoFile is outside the frame: its data list is the same object with the same contents (it goes to other containers)
         d2 = F.get(f, "data")
-        env.ensure(KEY + "add_file::post:frame:file-data-unchanged", (d2 is data) and z3.eq(d2.seq, seq0), ("C16", "C09"))
+        env.ensure(KEY + "add_file::post:frame:file-data-unchanged", (d2 is data) and z3.eq(d2.seq, seq0), ("C16", "C09", "C14"))
 
     def f_add_files(self, env, cell, F, native):
         """add_files is the fold of add_file over the list, in list order (add_file through its contract)"""
@@ -352,6 +355,16 @@ class TapeWriter:
             cas, B0 = self._fresh_cassette(env, F, native)
             F.method(cas, "add_files", [f[0] for f in files])
             self._native_files_check(env, F.get(cas, "buffer"), B0, [f[1:] for f in files], KEY + "add_files::post:fold")
+            if k == 2:
+                # the SAME CoCoFile twice in one list (a safety copy on one tape), and a renamed copy that shares its data list:
+                # the fold is over the list, each occurrence is a complete file
+                data = [(7 * i + 3) % 256 for i in range(600)]
+                f1 = F.coco_file("GAME", 2, 0, 0x0E00, 0x0E10, data)
+                f2 = F.coco_file("BACKUP", 2, 0, 0x0E00, 0x0E10, data)
+                want = ("GAME", 2, 0, 0x0E00, 0x0E10, list(data))
+                cas2, B2 = self._fresh_cassette(env, F, native)
+                F.method(cas2, "add_files", [f1, f1, f2])
+                self._native_files_check(env, F.get(cas2, "buffer"), B2, [want, want, ("BACKUP",) + want[1:]], KEY + "add_files::post:fold")
             return
         files = [F.coco_file("F%d" % j, 2, 0, 0, 0, [j]) for j in range(k)]
         cas, B0 = self._fresh_cassette(env, F, native)
